@@ -256,4 +256,26 @@ def witness(failure, ctx):
                 bad.append({"n": n, "real_from_u32": res, "declared": n in decl})
         return {"found": bool(bad), "exhaustive": False, "input": bad[:10],
                 "how": "vreplay enum-scan %s: real from_u32 on 0..=70000 and +-2 around every declared range bound and arm bound" % T}
-    return None
+    # names: every declared variant name and alias of every enumeration parses (FromStr) to its value, and the Debug name of every
+    # value parses back to it (generated program over the declarations of the tree under check)
+    lines = ["// generated by /verif/units/spirv_enums.py", "#![allow(unused, non_upper_case_globals)]", "use rspirv::spirv;", "use std::str::FromStr;", "fn main() {", "    let mut bad = 0;"]
+    src = Source.get(SPIRV)
+    for e in src.find_all("enum"):
+        T = e.name
+        if not re.search(r"FromStr\s+for\s+%s\b" % T, src.text):
+            continue
+        for n_, _v in enum_variants(e):
+            lines.append('    if spirv::%s::from_str("%s") != Ok(spirv::%s::%s) { bad += 1; println!("MISMATCH %s::from_str(%s) = {:?}", spirv::%s::from_str("%s")); }' % (T, n_, T, n_, T, n_, T, n_))
+            lines.append('    if format!("{:?}", spirv::%s::%s).parse::<spirv::%s>() != Ok(spirv::%s::%s) { bad += 1; println!("MISMATCH the Debug name of %s::%s does not parse back"); }' % (T, n_, T, T, n_, T, n_))
+        for imp in src.find_all("impl", lambda i: i.impl_of == T and i.impl_trait is None):
+            for c in imp.children:
+                if c.kind == "const":
+                    lines.append('    if spirv::%s::from_str("%s") != Ok(spirv::%s::%s) { bad += 1; println!("MISMATCH alias %s::from_str(%s) = {:?}", spirv::%s::from_str("%s")); }' % (T, c.name, T, c.name, T, c.name, T, c.name))
+    lines += ['    println!("checked, {} mismatches", bad);', "}"]
+    p, err = ctx["vgen"]("names_witness", "\n".join(lines), [])
+    if p is None:
+        return {"found": False, "error": err}
+    out = p.stdout.splitlines()
+    mm = [l for l in out if l.startswith("MISMATCH")]
+    return {"found": bool(mm), "exhaustive": True, "input": mm[:8], "observed": out[-1:],
+            "how": "generated program: FromStr of every declared variant name and alias, Debug name of every value, on the real spirv crate"}
